@@ -47,7 +47,7 @@ type vfRRScript struct {
 	} `json:"steps"`
 }
 
-var errVfRRInjected = errors.New("injected RTCP write failure") //nolint:gochecknoglobals
+var errVfRRInjected error = vfInjErr{"injected RTCP write failure"} //nolint:gochecknoglobals
 
 var vfRREpoch = time.Date(2026, 1, 1, 0, 0, 0, 0, time.UTC) //nolint:gochecknoglobals
 
